@@ -278,7 +278,16 @@ class SimFS:
         return text
 
     def op_write(self, raw, data):
-        act = self._before('write', raw.path, len(data))
+        if getattr(raw, 'sticky_errno', None) is not None:
+            # the device keeps failing for this descriptor (disk full, I/O error): the retry
+            # that close() makes when it flushes must not silently complete the file
+            raise OSError(raw.sticky_errno, os.strerror(raw.sticky_errno), raw.path)
+        try:
+            act = self._before('write', raw.path, len(data))
+        except OSError as e:
+            if e.errno in (errno.ENOSPC, errno.EIO):
+                raw.sticky_errno = e.errno
+            raise
         _AUTH[0] += 1
         try:
             if raw.append:
@@ -344,10 +353,12 @@ class SimFS:
             finally:
                 _AUTH[0] -= 1
         # used by Path.touch(): O_CREAT|O_WRONLY[|O_EXCL]; the fd is only closed afterwards
-        existed = os.path.lexists(p)
         kind = 'creat.x' if flags & os.O_EXCL else ('creat.w' if flags & os.O_TRUNC else 'creat')
         fd = self._simple('os_open', kind, (self.rel(p),), p, p, flags, mode)
-        del existed
+        if self.lock_close_hook is not None and self.is_lockfile(p):
+            # Path.touch(): os.open(O_CREAT) immediately followed by os.close(fd) - and closing
+            # ANY descriptor of a file drops the record locks the process holds on it (POSIX)
+            self.lock_close_hook(self.pid_of(), p)
         return fd
 
     def sim_unlink(self, path, *, dir_fd=None):
